@@ -452,6 +452,8 @@ COMMIT_GROUPS = {
                      "task memory / future / output release: once the state test selected the releasing branch, the release happens"),
     "task-wake": (r"^executor::task", r"task::Task::wake$|^std::ops::Fn::call$|Atomic\w*::fetch_(add|sub|and|or|update)$|Atomic\w*::compare_exchange\w*$",
                   "task wake-up / state transitions: every waker entry point performs its state update and schedules when it must"),
+    "queues": (r"^util::(indexed_)?priority_queue::", r"BinaryHeap::(push|pop)$|Vec::(push|pop)$|^std::mem::replace$|sift_(up|down)$",
+               "priority-queue structural updates: once an operation has decided to insert / remove, the heap and slab updates all happen"),
     "executor-drop": (r"^<executor::|^executor::", r"JoinHandle::join$|CancelToken::cancel$|Signal::set$|Slab::drain$|Vec::drain$",
                       "executor shutdown steps"),
     "mailbox-signals": (r"^channel::|^<channel::", r"notify(_one|_all)?$|channel::queue::Queue::(push|pop|close)$",
